@@ -29,6 +29,9 @@ var purePrims = map[string]bool{
 	"headers.IsSafelistedResponseHeaderName":     true,
 	"headers.TrimOWS":                            true,
 	"origins.Parse":                              true,
+	"origins.parseScheme":                        true,
+	"origins.fastParseHost":                      true,
+	"origins.parsePort":                          true,
 	"origins.ParsePattern":                       true,
 	"(*" + "origins.Tree).Contains":              true,
 	"(*" + "origins.Tree).IsEmpty":               true,
@@ -40,6 +43,7 @@ var purePrims = map[string]bool{
 	"methods.IsSafelisted":                       true,
 	"methods.Normalize":                          true,
 	"util.ByteLowercase":                         true,
+	"(*util.ASCIISet).Contains":                  true,
 	"util.ByteUppercase":                         true,
 	"(" + "util.Set).Contains":                   true,
 	"(" + "util.Set).Size":                       true,
@@ -103,4 +107,19 @@ func (p *Prog) NewExec(pol func(*ssa.Function) Policy) *Exec {
 		pol = p.DefaultPolicy
 	}
 	return &Exec{fset: p.Fset, Policy: pol, MaxDepth: 8, MaxPaths: 200000}
+}
+
+// RadixPolicy: for rules that look inside the origin tree's operations; the
+// node-level operations become primitives.
+func (p *Prog) RadixPolicy(fn *ssa.Function) Policy {
+	switch funcName(fn) {
+	case "(*origins.node).contains", "origins.splitAtCommonSuffix", "origins.deleteSameSign":
+		return PolPure
+	case "(*origins.node).add", "(*origins.node).upsertEdge", "(*origins.node).elems":
+		return PolEffect
+	}
+	if strings.HasPrefix(funcName(fn), "origins.insert") {
+		return PolPure
+	}
+	return p.DefaultPolicy(fn)
 }
